@@ -440,6 +440,20 @@ func (g *G) globalHeader() *am.Global {
 	if g.chance("galign", 1, 3) {
 		gl.Align = 1 << uint(g.rng("galignlog", 0, 8))
 	}
+	if !g.off("global-attrs") && g.chance("gattrs", 1, 6) {
+		// attributes of a global variable (LLVM 14 allows string attributes here; clang writes "bss-section" etc.)
+		for k := g.rng("ngattrs", 1, 2); k > 0; k-- {
+			a := g.pick("gattr", []string{`"bss-section"=".mybss"`, `"data-section"="sec,x"`, `"verif-flag"`, `"k"="100%"`, `"rodata-section"=".r"`})
+			dup := false
+			for _, b := range gl.Attrs {
+				dup = dup || b == a
+			}
+			if !dup {
+				gl.Attrs = append(gl.Attrs, a)
+			}
+		}
+		g.feat("top/global-attributes")
+	}
 	if !decl {
 		gl.Init = &am.Const{} // placeholder: filled by globalInit
 		gl.ExternInit = g.chance("externinit", 1, 12)
@@ -805,6 +819,7 @@ func DrawNoise(rt *rapid.T) am.Noise {
 		Comments:        rapid.IntRange(0, 2).Draw(rt, "n.comments") == 0,
 		FullCallType:    rapid.Bool().Draw(rt, "n.fullcalltype"),
 		OverwideInts:    rapid.IntRange(0, 3).Draw(rt, "n.overwideints") == 0,
+		HexInts:         rapid.IntRange(0, 3).Draw(rt, "n.hexints") == 0,
 		SplitAttrGroups: rapid.IntRange(0, 2).Draw(rt, "n.splitattrgroups") == 0,
 		Indent:          rapid.SampledFrom([]string{"", "\t", "        ", " "}).Draw(rt, "n.indent"),
 	}
